@@ -95,8 +95,11 @@ class World:
         """Fn: one constructor per lambda (fields = captured variables), one per
         module-level def, ext(id); Val: dynamic values; effects are Val terms"""
         self.lambdas = {}     # ctor name -> (node, [(capname, kind)])
+        self.lambda_names = {}
+        self._lam_count = {}
         Fn = z3.Datatype('Fn!' + self.rel)
-        Fn.declare('ext', ('ext_id', I))
+        Fn.declare('ext', ('ext_id', I))        # user callback: effectful, every call is logged
+        Fn.declare('pure', ('pure_id', I))      # user predicate assumed pure (not logged)
         cap_types = {}
         for c in self.registry.values():
             if c.rel == self.rel:
@@ -151,7 +154,10 @@ class World:
                 caps.append((nm, None))
                 continue
             caps.append((nm, ty))
-        cname = 'lam_L%d' % lam.lineno
+        ordn = self._lam_count.get(fn_name, 0)
+        self._lam_count[fn_name] = ordn + 1
+        cname = 'lam_%s_%d' % (fn_name or 'module', ordn)
+        self.lambda_names[id(lam)] = cname
         fields = []
         ok = True
         for nm, ty in caps:
@@ -219,7 +225,7 @@ class World:
                 return self.ext_fn('def:' + v.qualname)
             return ctor
         if v.fk == 'closure':
-            cname = 'lam_L%d' % v.node.lineno
+            cname = self.lambda_names.get(id(v.node))
             entry = self.lambdas.get(cname)
             if entry is None or entry[1] is None:
                 raise EngineError('closure %s cannot be stored as a value (captures non-scalar state)' % v.name)
@@ -365,9 +371,9 @@ class World:
             return VBool(False)
         if n == 'keys_eq':
             a, b = eng.sev(e.args[0], st, bound), eng.sev(e.args[1], st, bound)
-            na, nb = st.node(a), st.node(b)
-            k = fresh('k', eng.sort_of_kind(na.kkind))
-            return VBool(z3.ForAll([k], na.dom[k] == nb.dom[k]))
+            da, db = eng.as_dict(st, a), eng.as_dict(st, b)
+            k = fresh('k', eng.sort_of_kind(da[0]))
+            return VBool(z3.ForAll([k], da[2][k] == db[2][k]))
         if n == 'same_dict':
             a, b = eng.sev(e.args[0], st, bound), eng.sev(e.args[1], st, bound)
             return VBool(eng.equal(st, a, b))
@@ -385,6 +391,10 @@ class World:
     # ---- objects --------------------------------------------------------------
     def obj_attr(self, eng, st, base, n, attr):
         return None
+
+    def has_method(self, cls, name):
+        c = self.module_classes.get(cls)
+        return c is not None and any(isinstance(m, ast.FunctionDef) and m.name == name for m in c.body)
 
     def obj_getattr_code(self, eng, st, base, n, attr, node):
         return None
@@ -421,6 +431,32 @@ class World:
                 return out
             if getattr(fv, 'kind', None) == 'fn' and fv.fk == 'callback':
                 out.append(fv.log)
+            if getattr(fv, 'kind', None) == 'fn' and fv.fk == 'def':
+                out.extend(self._contract_writes(eng, st, '%s::%s' % (fv.rel, fv.qualname), None))
+        elif isinstance(f, ast.Attribute):
+            try:
+                recv = eng.sev(f.value, st)
+            except EngineError:
+                return out
+            if recv.kind == 'ref' and isinstance(st.node(recv), Obj):
+                out.extend(self._contract_writes(eng, st, '%s::%s.%s' % (self.rel, st.node(recv).cls, f.attr), recv))
+        return out
+
+    def _contract_writes(self, eng, st, key, recv):
+        c = self.registry.get(key)
+        out = []
+        if c is None:
+            return out
+        for m in c.modifies:
+            p = m[:-3] if m.endswith('[*]') else m
+            try:
+                v = eng.sev(p, st, {'self': recv} if recv is not None else {})
+            except EngineError:
+                continue
+            if v.kind == 'ref':
+                out.append(v)
+            elif v.kind == 'inner':
+                out.append(v.ref)
         return out
 
     def kwargs_value(self, eng, st, kwargs):
@@ -462,6 +498,32 @@ class World:
 
     def comprehension(self, eng, st, e):
         raise EngineError('%s:%d: comprehension outside the supported shapes' % (eng.rel, e.lineno))
+
+    def yield_stmt(self, eng, st, s):
+        """@contextmanager generator: the with-block runs at the yield.  Two continuations:
+        normal resume, and the block's exception raised at the yield."""
+        self.used.add('contextmanager')
+        c = eng.cur
+        if c.kind != 'contextmanager':
+            raise EngineError('yield outside a contextmanager contract')
+        at = st.copy()
+        at.marks = dict(at.marks)
+        at.marks['yield'] = st.snapshot()
+        for k, e in enumerate(c.extra.get('enter', [])):
+            eng.oblige(at, 'enter/post%d' % k, eng.sbool(e, at), s.lineno)
+        # the block may do anything the contract's `block_modifies` allows
+        for path in c.extra.get('block_modifies', []):
+            eng.havoc_path(at, path)
+        for e in c.extra.get('block_assumes', []):
+            at.assume(eng.sbool(e, at))
+        at.marks['resume'] = at.snapshot()
+        normal = at.copy()
+        normal.marks['__exit__'] = 'ok'
+        exc_st = at.copy()
+        exc_st.marks['__exit__'] = 'exc'
+        injected = VExc(VCls(fresh('block_exc', Cls)), [])
+        exc_st.marks['__injected__'] = injected
+        return [Result(normal), Result(exc_st, exc=injected, flow='raise')]
 
     def with_stmt(self, eng, st, s):
         raise EngineError('with statement: no contract-carrying context manager')
@@ -523,6 +585,8 @@ class World:
             return [Result(st, st.alloc(Arr(kind, fresh('empty', z3.ArraySort(I, eng.sort_of_kind(kind))), n, 'ndarray')))]
         if name == 'isinstance':
             return self.isinstance_(eng, st, args[0], args[1], node)
+        if name in ('frozenset', 'set', 'tuple', 'list') and len(args) == 1 and args[0].kind == 'tuple':
+            return [Result(st, VTuple(list(args[0].items), name == 'list'))]
         if name == 'warn':
             self.used.add('warn')
             return [Result(self.log_effect(eng, st, 'warn', args[0]), NONE)]
@@ -736,11 +800,12 @@ class World:
             if not eng.feasible(s):
                 continue
             cname = ctor.name()
-            if cname == 'ext':
-                # external function: uninterpreted result, effect logged
+            if cname in ('ext', 'pure'):
+                # external function: uninterpreted result; effectful ones are logged
                 a0 = self.to_val(eng, args[0]) if args else self.Val.vnone
-                if '$log' in s.globals:
+                if cname == 'ext' and '$log' in s.globals:
                     s = self.log_effect(eng, s, 'call', VFn('sym', term=term), VVal(a0))
+                self.used.add('callback')
                 out.append(Result(s, VVal(self.apply_ext(term, a0))))
             elif cname.startswith('lam_'):
                 lam, caps = self.lambdas[cname]
@@ -750,6 +815,11 @@ class World:
                 out.extend(eng.call_inline(s, lam, env, args, kwargs, node))
             elif cname.startswith('def_'):
                 nm = cname[4:]
+                c = self.registry.get('%s::%s' % (self.rel, nm))
+                if c is not None and c.extra.get('pure_uninterpreted'):
+                    a0 = self.to_val(eng, args[0]) if args else self.Val.vnone
+                    out.append(Result(s, VVal(self.apply_ext(term, a0))))
+                    continue
                 fv = VFn('def', rel=self.rel, qualname=nm, node=self.module_defs[nm])
                 out.extend(eng.call_def(s, fv, args, kwargs, node))
             else:
